@@ -46,5 +46,12 @@ if __name__ == "__main__":
         rc = main()
     except SystemExit:
         raise
+    except BaseException:  # a crash of the harness is not a verdict: exit 2, never 1
+        import traceback
+
+        traceback.print_exc()
+        sys.stdout.flush()
+        sys.stderr.flush()
+        os._exit(2)
     sys.stdout.flush()
     os._exit(rc)
